@@ -135,6 +135,31 @@ def strategy(tier: str):
     return _case()
 
 
+def enumerate_cases(tier: str, shard: int, nshards: int):
+    """reset_rules blocks entered while a chain is narrowed to its minimum (directly on its ruler), whose body switches the
+    chain's rules on and uses the instance: every combination of chain x exit path x preset (deterministic coverage of a
+    shape the generated bodies reach only now and then)."""
+    _TIER.update(budget(tier))
+    chains = {
+        "inline2": ([], ["emphasis", "strikethrough", "balance_pairs", "fragments_join"]),
+        "inline": (["text"], ["emphasis", "backticks", "link", "escape", "entity", "newline"]),
+        "block": (["paragraph"], ["list", "heading", "blockquote", "fence", "hr", "code"]),
+        "core": (["normalize", "block", "inline", "text_join"], ["replacements", "smartquotes"]),
+    }
+    idx = 0
+    for preset in ("commonmark", "js-default", "zero"):
+        for ch, (keep, names) in chains.items():
+            for exit_ in ("normal", "raise"):
+                for inner in (False, True):
+                    idx += 1
+                    if idx % nshards != shard:
+                        continue
+                    body = [["enable", list(names)], ["parse", PROBES[0]]]
+                    if inner:
+                        body = [["block", body, exit_, "Exception"], ["parse", PROBES[1 % len(PROBES)]]]
+                    yield {"kind": "reset", "cfg": C.simple(preset, typographer=True), "pre": [[ch, "enableOnly", list(keep)]], "body": body, "exit": exit_, "exc": "Exception", "between": []}
+
+
 # --------------------------------------------------------------------------------------------
 
 
@@ -177,7 +202,8 @@ def instrument(md, ctl: Ctl) -> None:
 
     def hl(content, lang, attrs):
         ctl.hit(("highlight", "highlight"))
-        return ""
+        # a visible answer: whether (and with what) the callback was asked shows in every later rendering
+        return "<mark>" + content.replace("&", "&amp;").replace("<", "&lt;") + "|" + lang.replace("&", "&amp;").replace("<", "&lt;") + "</mark>"
 
     md.options["highlight"] = hl
 
@@ -187,9 +213,9 @@ def snapshot(md):
     return md.get_active_rules(), md.get_all_rules(), {k: (v if not callable(v) else "<callable>") for k, v in o.items()}
 
 
-def probe_all(md, ctl: Ctl | None):
+def probe_all(md, ctl: Ctl | None, extra: str | None = None):
     out = []
-    for p in PROBES:
+    for p in list(PROBES) + ([extra] if extra is not None else []):
         if ctl:
             ctl.reset()
         env: dict = {}
@@ -210,11 +236,15 @@ def check_crash(case, res: Res) -> None:
     cctl = Ctl()
     control = C.build(cfg)
     instrument(control, cctl)
-    expected_probe = probe_all(control, cctl)
-    # counting pass
-    ctl.reset()
-    getattr(md, entry)(src)
-    counts = dict(ctl.count)
+    expected_probe = probe_all(control, cctl, src)  # the document of the failed call is parsed again afterwards, too
+    # counting pass - on an instance of its own, so that the first failure can be the very first thing the instance
+    # under test ever does with this document
+    counter_ctl = Ctl()
+    counter = C.build(cfg)
+    instrument(counter, counter_ctl)
+    counter_ctl.reset()
+    getattr(counter, entry)(src)
+    counts = dict(counter_ctl.count)
     before = snapshot(md)
     per = _TIER["per_callback"]
     picks = case.get("picks") or [0]
@@ -236,6 +266,11 @@ def check_crash(case, res: Res) -> None:
     kinds = EXC_KINDS
     for pi, (key, i) in enumerate(points):
         exc = make_exc(kinds[(pi + picks[0]) % len(kinds)] if case["exc"] == "Exception" else case["exc"])
+        if key[0] in ("highlight", "render"):
+            # renderer callbacks: every crash point on an instance that has not rendered anything yet
+            ctl = Ctl()
+            md = C.build(cfg)
+            instrument(md, ctl)
         ctl.reset()
         ctl.target = (key, i)
         ctl.exc = exc
@@ -258,7 +293,7 @@ def check_crash(case, res: Res) -> None:
             which = ["active rules", "all rules", "options"][[a != b for a, b in zip(after, before)].index(True)]
             res.fail(f"state-changed:{key[0]}:{which}", f"{where}: {which} differ after the failed call")
             break
-        got = probe_all(md, ctl)
+        got = probe_all(md, ctl, src)
         if got != expected_probe:
             j = [a != b for a, b in zip(got, expected_probe)].index(True)
             det = first_diff(got[j][0], expected_probe[j][0]) if isinstance(got[j], list) else f"{got[j]!r} != {expected_probe[j]!r}"
